@@ -1,4 +1,5 @@
 import Litep2pVerif.Proofs.Mss.Negotiate
+import Litep2pVerif.Proofs.Mss.Flush
 import Litep2pVerif.Proofs.Mss.WebRtc
 import Litep2pVerif.Generated.Consts
 /-!
@@ -37,38 +38,65 @@ example : uviEncode 300 = [172, 2] ∧ uviDecodeU16 [172, 2, 7] = .ok (300, [7])
     uviDecodeU16 [128, 0] = .error .notMinimal := by
   refine ⟨by rw [uviEncode_two 300 (by omega) (by omega)], by decide, by decide⟩
 
-/-- **Framing is transparent.** Frames `fs` (each at most `MAX_FRAME_SIZE` bytes) followed by
-arbitrary bytes `rest` are on the wire. For EVERY schedule of chunk sizes and `Pending`s, a reader
-that polls for `|fs|` frames gets a prefix of `fs` — never anything else, never an error — and once
-it has got all of them it has consumed exactly `Σ |uvi(len)| + len` bytes: what is left in the
-carrier is exactly `rest`, and the reader's buffers are empty (so `into_inner` hands the carrier
-over with the application's bytes untouched). -/
+/-- **Framing is transparent.** Frames `fs` (each at most `MAX_FRAME_SIZE` bytes) are submitted with
+`start_send` to a `LengthDelimited` over a carrier that is write-through or WRITE-BEHIND (`wb`: what
+`poll_write` accepts is staged and reaches the peer only when the carrier's own flush completes), and
+the sink is flushed, polling again after every `Pending`, under ANY schedule `ws` of chunk sizes /
+`Pending`s of the inner `poll_write` and ANY schedule `fl` of `Pending`/`Ready` answers of the inner
+`poll_flush`. Once that flush has returned `Ready(Ok)`, exactly the frames are visible to the peer
+(nothing is left in the write buffer or staged: `into_inner`'s assertion holds), and while it has not,
+a write-behind carrier shows the peer nothing. Arbitrary bytes `rest` follow (the application's). For
+EVERY schedule of chunk sizes and `Pending`s on the reading side, a reader that polls for `|fs|` frames
+gets a prefix of `fs` — never anything else, never an error — and once it has got all of them it has
+consumed exactly `Σ |uvi(len)| + len` bytes: what is left in the carrier is exactly `rest`, and the
+reader's buffers are empty (so `into_inner` hands the carrier over with the application's bytes
+untouched). -/
 theorem framing_transparent (fs : List Bytes) (hfs : ∀ f ∈ fs, f.length ≤ maxFrameSize) (rest : Bytes)
-    (eof : Bool) (fuel : Nat) (sched : List Nat) :
+    (eof : Bool) (fuel : Nat) (sched : List Nat) (wb : Bool) (ws : List Nat) (fl : List Bool) (polls : Nat) :
+    sendAll {} fs = .ok ⟨wire fs⟩ ∧
+    ((flushRun polls ⟨⟨wire fs⟩, { wb := wb }, ws, fl⟩).2 = .pending → wb = true →
+      (flushRun polls ⟨⟨wire fs⟩, { wb := wb }, ws, fl⟩).1.c.visible = []) ∧
+    ((flushRun polls ⟨⟨wire fs⟩, { wb := wb }, ws, fl⟩).2 = .ready →
+      (flushRun polls ⟨⟨wire fs⟩, { wb := wb }, ws, fl⟩).1.c.visible = wire fs ∧
+      (flushRun polls ⟨⟨wire fs⟩, { wb := wb }, ws, fl⟩).1.c.staged = [] ∧
+      (flushRun polls ⟨⟨wire fs⟩, { wb := wb }, ws, fl⟩).1.w.writeBuffer = []) ∧
     ∃ k, k ≤ fs.length ∧
       (readN fs.length fuel Reader.fresh ⟨wire fs ++ rest, eof⟩ sched).1 = (fs.take k).map PollNext.frame ∧
       (k = fs.length →
         (readN fs.length fuel Reader.fresh ⟨wire fs ++ rest, eof⟩ sched).2.1 = Reader.fresh ∧
         (readN fs.length fuel Reader.fresh ⟨wire fs ++ rest, eof⟩ sched).2.2.1 = ⟨rest, eof⟩) := by
-  cases fs with
-  | nil => exact ⟨0, by simp, by simp [readN], by simp [readN, wire]⟩
-  | cons f fs =>
-    have hlen : ∀ g ∈ f :: fs, g.length < 16384 := by
-      intro g hg; have := hfs g hg; rw [maxFrameSize_eq] at this; omega
-    have := readN_mid rest fuel f fs Reader.fresh ⟨wire (f :: fs) ++ rest, eof⟩ sched hlen
-      (by rw [wire_cons, List.append_assoc]; exact mid_fresh _ _ _)
-    simpa using this
+  refine ⟨by simpa using sendAll_wire fs {} hfs, ?_, ?_, ?_⟩
+  · intro hp hwb
+    subst hwb
+    exact flushRun_pending_wb polls _ rfl hp
+  · intro hr
+    obtain ⟨h1, h2, h3⟩ := flushRun_ready polls _ hr
+    exact ⟨by simpa [SinkIo.pipeline] using h3, h2, h1⟩
+  · cases fs with
+    | nil => exact ⟨0, by simp, by simp [readN], by simp [readN, wire]⟩
+    | cons f fs =>
+      have hlen : ∀ g ∈ f :: fs, g.length < 16384 := by
+        intro g hg; have := hfs g hg; rw [maxFrameSize_eq] at this; omega
+      have := readN_mid rest fuel f fs Reader.fresh ⟨wire (f :: fs) ++ rest, eof⟩ sched hlen
+        (by rw [wire_cons, List.append_assoc]; exact mid_fresh _ _ _)
+      simpa using this
 
 /-- Non-vacuity: two frames and two application bytes read in 1-byte chunks with `Pending`s in
-between: both frames are returned and exactly `[9, 9]` is left; the side condition on the constants
-holds for the regenerated values. -/
+between: both frames are returned and exactly `[9, 9]` is left; over a write-behind carrier whose
+flush answers `Pending` twice, the peer sees nothing after two polls and all five bytes after the
+third; the side condition on the constants holds for the regenerated values. -/
 example :
     wire [[1, 2, 3], []] ++ [9, 9] = [3, 1, 2, 3, 0, 9, 9] ∧
     (readN 2 50 Reader.fresh ⟨[3, 1, 2, 3, 0, 9, 9], false⟩ [1, 0, 1, 1, 0, 0, 1, 1, 5]).1 =
       [.frame [1, 2, 3], .frame []] ∧
     (readN 2 50 Reader.fresh ⟨[3, 1, 2, 3, 0, 9, 9], false⟩ [1, 0, 1, 1, 0, 0, 1, 1, 5]).2.2.1.data = [9, 9] ∧
+    (flushRun 2 ⟨⟨[3, 1, 2, 3, 0]⟩, { wb := true }, [2, 9], [false, false, true]⟩).2 = .pending ∧
+    (flushRun 2 ⟨⟨[3, 1, 2, 3, 0]⟩, { wb := true }, [2, 9], [false, false, true]⟩).1.c.staged = [3, 1, 2, 3, 0] ∧
+    (flushRun 3 ⟨⟨[3, 1, 2, 3, 0]⟩, { wb := true }, [2, 9], [false, false, true]⟩).2 = .ready ∧
+    (flushRun 3 ⟨⟨[3, 1, 2, 3, 0]⟩, { wb := true }, [2, 9], [false, false, true]⟩).1.c.visible = [3, 1, 2, 3, 0] ∧
     maxFrameSize = 16383 ∧ Consts.MSS_MAX_LEN_BYTES = 2 := by
-  refine ⟨by simp [wire, frameBytes, uviEncode_lt], by decide, by decide, by decide, by decide⟩
+  refine ⟨by simp [wire, frameBytes, uviEncode_lt], by decide, by decide, by decide, by decide, by decide, by decide,
+    by decide, by decide⟩
 
 /-- **Framing makes progress.** The liveness complement of `framing_transparent`. The carrier
 "eventually delivers every byte": the schedule contains at least as many non-`Pending` choices (each
@@ -93,7 +121,7 @@ theorem framing_progress (fs : List Bytes) (hfs : ∀ f ∈ fs, f.length ≤ max
       exact readN_progress rest fuel f fs Reader.fresh ⟨wire (f :: fs) ++ rest, eof⟩ sched hlen
         (by rw [wire_cons, List.append_assoc]; exact mid_fresh _ _ _) hfuel
         (by simp only [List.length_append, nz] at hdeliver ⊢; omega)
-  obtain ⟨k, hk, hpre, hfin⟩ := framing_transparent fs hfs rest eof fuel sched
+  obtain ⟨_, _, _, k, hk, hpre, hfin⟩ := framing_transparent fs hfs rest eof fuel sched false [] [] 0
   have hkl : k = fs.length := by
     have := congrArg List.length (hpre.symm.trans hout)
     simp at this; omega
@@ -110,18 +138,79 @@ example :
   refine ⟨by simp [wire, frameBytes, uviEncode_lt], by decide, ?_, ?_⟩ <;>
     (rw [show wire [[1, 2, 3], []] = [3, 1, 2, 3, 0] by simp [wire, frameBytes, uviEncode_lt]]; decide)
 
-/-- **The writer loses nothing.** For every schedule, the bytes on the wire followed by the bytes
-still buffered are the bytes before followed by the buffer before; `Ready` means the buffer is
-empty (the assertion of `into_inner` on the write buffer holds after a flush). -/
-theorem framing_writer_exact (sched : List Nat) (w : Writer) (out : Bytes) :
-    (pollWriteBuffer w out sched).2.1 ++ (pollWriteBuffer w out sched).1.writeBuffer = out ++ w.writeBuffer ∧
-    ((pollWriteBuffer w out sched).2.2.2 = .ready → (pollWriteBuffer w out sched).1.writeBuffer = []) :=
-  pollWriteBuffer_exact sched w out
+/-- **The writer loses nothing.** `poll_write_buffer` over a carrier that may stage what it accepts:
+for every schedule, the bytes visible to the peer, followed by the bytes staged in the carrier,
+followed by the bytes still in the write buffer are the same sequence as before; `Ready` means the
+write buffer is empty (the assertion of `into_inner` on the write buffer holds after a flush); what
+the peer sees is only ever extended; and on a write-behind carrier writing alone shows the peer
+nothing — only a completed inner flush does (`flush_reaches_peer`). -/
+theorem framing_writer_exact (sched : List Nat) (w : Writer) (c : WCarrier) :
+    (pollWriteBufferC w c sched).2.1.visible ++ (pollWriteBufferC w c sched).2.1.staged ++
+        (pollWriteBufferC w c sched).1.writeBuffer = c.visible ++ c.staged ++ w.writeBuffer ∧
+    ((pollWriteBufferC w c sched).2.2.2 = .ready → (pollWriteBufferC w c sched).1.writeBuffer = []) ∧
+    (c.wb = true → (pollWriteBufferC w c sched).2.1.visible = c.visible) ∧
+    (∃ t, (pollWriteBufferC w c sched).2.1.visible = c.visible ++ t) := by
+  obtain ⟨h1, h2, h3, h4, _⟩ := pollWriteBufferC_exact sched w c
+  exact ⟨h1, h2, h3, h4⟩
 
-example : frameBytes [7, 8] = [2, 7, 8] ∧ (pollWriteBuffer ⟨[2, 7, 8]⟩ [] [1, 0, 5]).2.1 = [2] ∧
-    (pollWriteBuffer ⟨[2, 7, 8]⟩ [] [1, 1, 1]).2.1 = [2, 7, 8] ∧
-    (pollWriteBuffer ⟨[2, 7, 8]⟩ [] [1, 1, 1]).2.2.2 = .ready := by
-  refine ⟨by simp [frameBytes, uviEncode_lt], by decide, by decide, by decide⟩
+example : frameBytes [7, 8] = [2, 7, 8] ∧
+    (pollWriteBufferC ⟨[2, 7, 8]⟩ {} [1, 0, 5]).2.1.visible = [2] ∧
+    (pollWriteBufferC ⟨[2, 7, 8]⟩ {} [1, 1, 1]).2.1.visible = [2, 7, 8] ∧
+    (pollWriteBufferC ⟨[2, 7, 8]⟩ {} [1, 1, 1]).2.2.2 = .ready ∧
+    (pollWriteBufferC ⟨[2, 7, 8]⟩ { wb := true } [1, 1, 1]).2.1.visible = [] ∧
+    (pollWriteBufferC ⟨[2, 7, 8]⟩ { wb := true } [1, 1, 1]).2.1.staged = [2, 7, 8] := by
+  refine ⟨by simp [frameBytes, uviEncode_lt], by decide, by decide, by decide, by decide, by decide⟩
+
+/-- **`Ready` from the flush means the peer has everything.** `Sink::poll_flush` of `LengthDelimited`
+(= `poll_write_buffer`, then the inner `poll_flush`, whose answer is returned) over a write-through or
+write-behind carrier, from ANY state `s` — frames in the write buffer, bytes already handed to the
+carrier and staged there by an earlier poll whose inner flush was `Pending`, an empty write buffer —
+under EVERY schedule of inner write choices and EVERY schedule of `Pending`/`Ready` answers of the
+inner flush, polled any number of times: when a poll returns `Ready(Ok)`, every byte written before
+(visible, staged or buffered at the start, in this order) is visible to the peer, nothing is staged
+and the write buffer is empty. In particular a poll that finds the write buffer empty may NOT report
+`Ready` unless the inner flush does. -/
+theorem flush_reaches_peer (polls : Nat) (s : SinkIo) (h : (flushRun polls s).2 = .ready) :
+    (flushRun polls s).1.c.visible = s.c.visible ++ s.c.staged ++ s.w.writeBuffer ∧
+    (flushRun polls s).1.c.staged = [] ∧ (flushRun polls s).1.w.writeBuffer = [] := by
+  obtain ⟨h1, h2, h3⟩ := flushRun_ready polls s h
+  exact ⟨h3, h2, h1⟩
+
+/-- Non-vacuity: the situation of a busy write-behind transport. The first poll hands the frame
+`[2, 7, 8]` to the carrier and gets `Pending` from the inner flush; the second poll finds the write
+buffer EMPTY and the inner flush `Pending` again — it is `Pending`, and the peer still sees nothing;
+the third poll completes. -/
+example :
+    (sinkPollFlush ⟨⟨[2, 7, 8]⟩, { wb := true }, [9], [false, false, true]⟩) =
+      (⟨⟨[]⟩, { wb := true, staged := [2, 7, 8] }, [], [false, true]⟩, .pending) ∧
+    (sinkPollFlush ⟨⟨[]⟩, { wb := true, staged := [2, 7, 8] }, [], [false, true]⟩) =
+      (⟨⟨[]⟩, { wb := true, staged := [2, 7, 8] }, [], [true]⟩, .pending) ∧
+    (sinkPollFlush ⟨⟨[]⟩, { wb := true, staged := [2, 7, 8] }, [], [true]⟩) =
+      (⟨⟨[]⟩, { wb := true, visible := [2, 7, 8] }, [], []⟩, .ready) ∧
+    (flushRun 3 ⟨⟨[2, 7, 8]⟩, { wb := true }, [9], [false, false, true]⟩).2 = .ready := by
+  decide
+
+/-- **A flush that is polled again completes.** The liveness complement, and what the message-level
+composition below assumes of the carrier: it takes every byte eventually (the write schedule holds at
+least as many non-`Pending` choices as the write buffer has bytes) and it completes a flush
+eventually (some answer of the flush schedule is `Ready`); the caller polls again after every
+`Pending` (more polls than the two schedules are long — every `Pending` poll uses up a choice or an
+answer). Then the flush returns `Ready(Ok)` — and by `flush_reaches_peer` everything is visible. -/
+theorem flush_completes (polls : Nat) (s : SinkIo) (hw : s.w.writeBuffer.length ≤ (s.ws.filter (· ≠ 0)).length)
+    (hf : true ∈ s.fs) (hpolls : s.ws.length + s.fs.length < polls) :
+    (flushRun polls s).2 = .ready ∧
+    (flushRun polls s).1.c.visible = s.c.visible ++ s.c.staged ++ s.w.writeBuffer :=
+  have h := flushRun_completes polls s hw hf hpolls
+  ⟨h, (flushRun_ready polls s h).2.2⟩
+
+/-- Non-vacuity (and the bounds are needed: without a `Ready` answer, or with a poll fewer than
+`Pending` answers, the flush is still pending). -/
+example :
+    (flushRun 6 ⟨⟨[2, 7, 8]⟩, { wb := true }, [1, 0, 1, 1], [false, true]⟩).2 = .ready ∧
+    (flushRun 6 ⟨⟨[2, 7, 8]⟩, { wb := true }, [1, 0, 1, 1], [false, true]⟩).1.c.visible = [2, 7, 8] ∧
+    (flushRun 9 ⟨⟨[2, 7, 8]⟩, { wb := true }, [1, 0, 1, 1], [false, false]⟩).2 = .pending ∧
+    (flushRun 2 ⟨⟨[2, 7, 8]⟩, { wb := true }, [1, 0, 1, 1], [false, true]⟩).2 = .pending := by
+  decide
 
 /-- A name the dialer may propose: valid (`ValidName`) and short enough for one frame. -/
 def Proposable (p : Bytes) : Prop := ValidName p ∧ p.length + 1 ≤ maxFrameSize
@@ -135,8 +224,13 @@ theorem proposable_sendable (p : Bytes) (h : Proposable p) : Sendable p := by
   simp [fitsFrame, Msg.encode, maxFrameSize_eq]
   omega
 
-/-- **Termination, explicit bound.** Every execution of the composed system (any interleaving of
-dialer and listener steps), for every dialer list of proposable names, every listener list, both
+/-- **Termination, explicit bound.** The composition is at message level: a flush step of a future
+(`FlushProtocol`, `Flush`, the deferred flush of `Negotiated::expecting`) hands the buffered messages to
+the peer's channel in one transition. Over a write-behind carrier this is exactly what happens —
+nothing written is visible before the flush returns `Ready`, everything is afterwards
+(`flush_reaches_peer`, `framing_transparent`) — PROVIDED the flush returns `Ready` at all: the carrier
+eventually completes a flush that is polled again (`flush_completes`). Under that assumption on the
+carrier: every execution of the composed system (any interleaving of dialer and listener steps), for every dialer list of proposable names, every listener list, both
 versions and whatever the lazy dialer's application writes, has at most `6·|ps| + 7` transitions:
 `6·|ps| + 7 − (transitions made)` is a measure that every transition decreases. -/
 theorem negotiate_terminates (v : Version) (ps ls : List Bytes) (junk : Option PErr)
@@ -158,7 +252,8 @@ theorem negotiate_confluent (v : Version) (ps ls : List Bytes) (junk : Option PE
     u = t ∧ k = n :=
   (confluent (dialerProc_closeHalts junk) listenerProc_closeHalts k n _ t u (good_init junk v ps _) h1 hf1 h2).2 hf2
 
-/-- **Agreement.** For all dialer lists `ps` of proposable names and all listener lists `ls`, both
+/-- **Agreement.** (Carrier assumption as for `negotiate_terminates`: write-through or write-behind, a
+flush that is polled again eventually completes.) For all dialer lists `ps` of proposable names and all listener lists `ls`, both
 versions (`V1`, and `V1Lazy` including the `Negotiated::expecting` phase), every maximal execution
 of the composed system ends with both futures returned, and both report the first `p ∈ ps` that the
 listener supports — or both report a failure when there is none. -/
@@ -331,6 +426,10 @@ open Litep2pVerif.Props.C03 in
 #print axioms framing_progress
 open Litep2pVerif.Props.C03 in
 #print axioms framing_writer_exact
+open Litep2pVerif.Props.C03 in
+#print axioms flush_reaches_peer
+open Litep2pVerif.Props.C03 in
+#print axioms flush_completes
 open Litep2pVerif.Props.C03 in
 #print axioms negotiate_terminates
 open Litep2pVerif.Props.C03 in
